@@ -352,6 +352,7 @@ def find_items(src: str):
                 if k < hi and sig[k].text == '{':
                     e = match_close(sig, k)
                     if not is_test:
+                        items.append(Item('mod', sig[i + 1].text, owner, trait, sig[first].start, sig[e].end, attr_start, sig[k].start))
                         scan(k + 1, e, owner, trait)
                     i = e + 1
                 else:
